@@ -234,6 +234,9 @@ func runC04(c *Ctx) {
 				}
 				src, s = x, kr.by[[]string{"operator", "account", "user", "server", "cluster"}[g.rng.Intn(5)]]
 			}
+			if kind != "generic" {
+				g.coincide(src, s.pub, src.Claims().Subject)
+			}
 			ty1 = schemaV1Builder.Of(reflect.TypeOf(src).Elem())
 			tok, err := src.Encode(s.kp)
 			c.sum.Evaluations++
